@@ -37,7 +37,11 @@ hybrj = Contract(
         "same(result[1][3], F0)",
     ],
     result=("tuple", "Opaque", ("tuple", "Bool", "Real", "Int", "Opaque")),
-    loops={3: {"cut": True, "invariant": ["success == False"], "defines": {"xtol": "Real"}}})
+    loops={3: {"cut": True, "invariant": ["success == False"], "defines": {"xtol": "Real"},
+               # the step-size rule is MINPACK's: relative to the problem size and to the size of the iterate the step starts from -- the
+               # scale in which the known-finding region A-xtol is stated must be that one, not whatever the variable `xtol` happens to hold
+               "let_body": {"x_norm_at_head": "D.ar_numpy.linalg.norm(x)"},
+               "ensures_iteration": ["xtol == tol * (xdim + x_norm_at_head)"]}})
 
 ntr = Contract(
     F, "newtontrustregion", sorts=dict(SORTS, jac_update_rate=("const", 20), initial_trust_region=("const", None)),
@@ -49,7 +53,8 @@ ntr = Contract(
     ],
     result=("tuple", "Opaque", ("tuple", "Bool", "Int", "Int", "Int", "Real")),
     loops={3: {"cut": True, "invariant": ["Fn1 == D.ar_numpy.linalg.norm(F1)", "implies(iter_index > 0, not success and not convergence_failure)"],
-               "defines": {"xtol": "Real", "success": "Bool", "convergence_failure": "Bool"}}})
+               "defines": {"xtol": "Real", "success": "Bool", "convergence_failure": "Bool"},
+               "ensures_iteration": ["xtol == tol * (xdim + D.ar_numpy.linalg.norm(x))"]}})
 
 
 # success through the step-size criterion (MINPACK's xtol rule): the residual is then bounded by ||J|| * xtol for a full Gauss-Newton step --
